@@ -591,6 +591,8 @@ pub const RUST_KW_FIELDS: &[&str] = &[
     "as", "break", "const", "continue", "dyn", "else", "enum", "extern", "false", "fn", "for", "if", "impl", "in", "let", "loop", "match", "mod", "move", "mut", "pub", "ref", "return", "static",
     "struct", "trait", "true", "unsafe", "use", "where", "while", "async", "await", "abstract", "become", "box", "do", "final", "macro", "override", "priv", "try", "typeof", "unsized", "virtual", "yield",
     "union", "gen",
+    // path keywords in another letter case are ordinary identifiers (seeded C08-r11 matched them case-insensitively)
+    "Super", "Crate", "SUPER", "SELF", "sElf", "CRATE",
 ];
 pub const RAW_FORBIDDEN_FIELDS: &[&str] = &["self", "Self", "super", "crate"];
 pub const ORD_NAMES: &[&str] = &["Foo", "Bar", "State", "T1", "Ping", "GetInfo", "X", "LongerTypeName9", "Aa", "Bb", "Cc", "Dd", "Ee", "GetID", "ReadIO", "HTTPServer", "A", "ABC"];
